@@ -95,6 +95,19 @@ ShapeOK(sh) ==
 Say(kind, id, name, sig) == PrintT(kind \o " " \o ToJson([id |-> id, name |-> name, i |-> i, run |-> Ev.run, k |-> Ev.k, sig |-> sig]))
 Check(id, name, ok) == ok \/ Say("FAIL", id, name, "-")
 
+\* C07: storage failures never cause trust-on-first-use, false success or a wedge
+Fired == SeqToSet(Ev.fired)
+MonFault(la, st, known, honest) ==
+    /\ Check("C07", "NoFalseSuccess", la.v = "Accept" => Ev.shape.readback /\ Ev.retcp = stored'[la.log] /\ la.ret = "new")
+    /\ Check("C07", "FailedReadIsNotFirstUse",
+             (Fired \cap {"GetLatest", "query", "WriteOps", "begin"}) # {} => la.v # "Accept" /\ Ev.unchanged)
+    /\ Check("C07", "FailureHasNoEffect", (Fired \ {"Close", "rollback"}) # {} /\ la.v # "Accept" => Ev.unchanged /\ la.ret \in {"nil", "prev"})
+    /\ Check("C07", "NeverRegresses", AppendOnlyStep(stored, stored'))
+    /\ Check("C07", "NoLeak", Ev.opentx = 0 /\ Ev.inuse = 0 /\ la.v # "Hang")
+    \* once the errors stop the witness carries on from the last committed state
+    /\ Check("C07", "CarriesOn", Fired = {} /\ honest /\ ~(st # None /\ st.n = 0 /\ la.req.n > 0) => la.v = "Accept")
+    /\ Check("C07", "CarriesOnRefusing", Fired = {} => RefusalNoEffectStep(stored, stored', la) /\ AuthenticStep(stored, stored', la))
+
 MonUpdate ==
     LET la == last'
         l == la.log
@@ -116,7 +129,8 @@ MonUpdate ==
     /\ Check("C12", "Isolation", IsolationStep(stored, stored', la))
     /\ Check("C16", "LogList", SeqToSet(Ev.loglist) = {m \in Logs : stored'[m] # None})
     /\ Check("C20", "Counters", CountersStep(ctr, ctr', la))
-    /\ Check("DRIFT", "Conforms", ConformsStep(stored, stored', la))
+    /\ (Ev.frun => MonFault(la, st, known, honest))
+    /\ Check("DRIFT", "Conforms", (Ev.frun /\ Ev.fired # <<>>) \/ ConformsStep(stored, stored', la))
     /\ Check("ORACLE", "RefAgrees", ~known \/ la.req.auth # "good" \/ RefAgrees(st, la.req, Ev.refok))
 
 MonGet ==
